@@ -228,7 +228,7 @@ def uses_all(rng, g, m, names):
 
 
 def gen_doc(rng, *, stratum: str):
-    """stratum: exact | float | keywords | mixed | srefkw | compkw | initname | digits | gennames | rewrite | gencollide | sparse | nearequal | idcollide | boolnum"""
+    """stratum: exact | float | keywords | mixed | srefkw | compkw | initname | digits | gennames | rewrite | gencollide | sparse | nearequal | idcollide | boolnum | boundary"""
     floaty = stratum == "float"
     GM.SMOOTH = stratum == "digits"
     kw = stratum == "keywords"
@@ -250,7 +250,9 @@ def gen_doc(rng, *, stratum: str):
             kd = ["conc", "amount", "hosu"][i % 3]
         species.append({"id": sid, "comp": rng.choice(comps)[0] if stratum != "mixed" else comps[0][0],
                         "init": rng.choice(["0", "1", "2", "3", "1/2", "5/2", "6"]),
-                        "isAmount": kd in ("amount", "hosu"), "hosu": kd in ("hosu", "conc_hosu")})
+                        "isAmount": kd in ("amount", "hosu"), "hosu": kd in ("hosu", "conc_hosu"),
+                        # boundaryCondition: takes part in reactions, is not changed by them
+                        "fixed": stratum == "boundary" and (i == 0 or rng.random() < 0.3)})
     if stratum == "mixed":
         comps[0][1] = rng.choice(["2", "1/2", "4"])
     npar = rng.choice([1, 2, 3])
@@ -496,6 +498,9 @@ def gen_doc(rng, *, stratum: str):
         rxns[0]["law"] = ["AST_PLUS", [rxns[0]["law"], ["AST_TIMES", [["ci", a_], ["AST_PLUS", [["ci", b_], ["cn", "1"]]]]]]]
     finding = {"mixed": "F-C17-4", "srefkw": "F-C17-5", "compkw": "F-C17-6", "idcollide": "F-C17-10",
                "boolnum": "F-C17-11"}.get(stratum)
+    if stratum == "boundary" and any(sp["fixed"] and sp["hosu"] and Fraction(dict(comps)[sp["comp"]]) != 1 for sp in species):
+        # third party: a boundary species with hasOnlySubstanceUnits in a compartment of size != 1 (F-C17-12)
+        finding = "F-C17-12"
     if stratum == "boolnum":
         # L3v2 lets a truth value stand for 0 / 1 (suite case 01288: the kinetic law <true/>): as a factor or a summand
         r = rng.choice(rxns)
@@ -525,6 +530,19 @@ def gen_doc(rng, *, stratum: str):
                         x[1] = str(amount)
     doc = {"comps": comps, "species": species, "params": params, "fundefs": fundefs, "inits": inits, "rules": rules,
            "rxns": rxns}
+    if any(sp.get("fixed") for sp in species):
+        # a boundary species may be imported as a parameter: the states keep the amount the document gives it
+        try:
+            spec = DocSpec(doc)
+            for sp in species:
+                if sp.get("fixed"):
+                    a = _val(spec.init_amount(sp["id"]))
+                    for st in states:
+                        for x in st:
+                            if x[0] == sp["id"]:
+                                x[1] = a
+        except (ZeroDivisionError, ValueError, OverflowError, RecursionError, KeyError):
+            return gen_doc(rng, stratum=stratum)
     prev_doc = None
     if stratum == "rewrite":
         # the document that was at this path before: the same text but for one digit (same byte length), or an
@@ -695,6 +713,8 @@ class DocSpec:
         return float(Fraction(st))
 
     def rhs(self, sid, amounts):
+        if self.sp[sid].get("fixed"):
+            return 0.0  # boundaryCondition / constant: reactions do not change it
         tot = 0.0
         for r in self.d["rxns"]:
             net = sum(self.coef(x, amounts) for x in r["products"] if x[0] == sid) - sum(
@@ -774,7 +794,7 @@ def write_doc(doc, path: Path, raw=None):
         ok(sp.setId(s["id"]))
         sp.setCompartment(s["comp"])
         sp.setConstant(False)
-        sp.setBoundaryCondition(False)
+        sp.setBoundaryCondition(bool(s.get("fixed")))
         sp.setHasOnlySubstanceUnits(s["hosu"])
         if s["init"] is not None:
             (sp.setInitialAmount if s["isAmount"] else sp.setInitialConcentration)(float(Fraction(s["init"])))
@@ -843,12 +863,19 @@ def eval_imported(m, case, imp):
     conc_repr = {}
     for s in doc["species"]:
         n = imp.get(s["id"], s["id"])
-        conc_repr[s["id"]] = f"{n}_amount" in all_names
+        # `<n>_amount` next to it: <n> is the concentration; `<n>_conc` next to it: <n> is the amount; no companion (a
+        # constant species kept as a parameter): <n> is what the identifier means in math
+        conc_repr[s["id"]] = f"{n}_amount" in all_names or (f"{n}_conc" not in all_names and not s["hosu"])
     out = {"init": {}, "at": [], "missing": []}
     ic = m.get_initial_conditions()
     for s in doc["species"]:
         n = imp.get(s["id"], s["id"])
         if n not in names:
+            if s.get("fixed") and n in all_names:
+                # a boundary / constant species may come back as a parameter (or a quantity derived from one)
+                v = float(a0[n])
+                out["init"][s["id"]] = _val(v * comp[s["comp"]] if conc_repr[s["id"]] else v)
+                continue
             out["missing"].append(s["id"])
             continue
         v = float(ic[n])
@@ -870,6 +897,8 @@ def eval_imported(m, case, imp):
         for sid, a in st:
             n = imp.get(sid, sid)
             s = next(x for x in doc["species"] if x["id"] == sid)
+            if n not in names:
+                continue  # a fixed species that is no state variable: the states keep its initial amount
             a = float(Fraction(a))
             vs[n] = a / comp[s["comp"]] if conc_repr[sid] else a
         args = m.get_args(variables=vs)
@@ -887,6 +916,8 @@ def eval_imported(m, case, imp):
             if n in rhs.index:
                 v = float(rhs[n])
                 rr[s["id"]] = _val(v * comp[s["comp"]] if conc_repr[s["id"]] else v)
+            elif s.get("fixed") and n in all_names:
+                rr[s["id"]] = "0"  # not a state variable: constant
             else:
                 rr[s["id"]] = None
         out["at"].append({"vals": vals, "rhs": rr})
@@ -1355,7 +1386,13 @@ def suite_cases(ctx):
         law_names = set()
         for r in doc["rxns"]:
             law_names |= _math_names(r["law"])
-        out.append({"kind": "suite", "doc": doc, "states": c17suite.states_for(doc, ctx.rng), "watch": [r[0] for r in doc["rules"]],
+        try:
+            spec = DocSpec(doc)
+            fixed_amounts = {sp["id"]: _val(spec.init_amount(sp["id"])) for sp in doc["species"] if sp.get("fixed")}
+        except Exception:  # noqa: BLE001  (the document does not evaluate at t = 0: division by zero, ...)
+            ctx.hist["suite outside: initial state not evaluable"] = ctx.hist.get("suite outside: initial state not evaluable", 0) + 1
+            continue
+        out.append({"kind": "suite", "doc": doc, "states": c17suite.states_for(doc, ctx.rng, fixed_amounts), "watch": [r[0] for r in doc["rules"]],
                     # third party, known: the compartment symbol in the law of an amount-typed species (F-C17-4)
                     "finding": "F-C17-4" if amount_typed and (law_names & comp_ids) else None,
                     "prev_doc": None, "keep_mtime": False, "raw": None, "stem": f"case{n:05d}", "xml_path": str(f), "suite": n})
@@ -1461,7 +1498,7 @@ def setup(ctx):
 def strata(ctx):
     n = ctx.n(1, 40)
     return [("exact", 110 * n), ("float", 60 * n), ("keywords", 40 * n), ("initname", 15 * n), ("mixed", 15 * n),
-            ("srefkw", 12 * n), ("compkw", 6 * n), ("digits", 12 * n), ("gennames", 24 * n), ("rewrite", 20 * n), ("gencollide", 24 * n), ("sparse", 12 * n), ("nearequal", 24 * n), ("idcollide", 6 * n), ("boolnum", 6 * n)]
+            ("srefkw", 12 * n), ("compkw", 6 * n), ("digits", 12 * n), ("gennames", 24 * n), ("rewrite", 20 * n), ("gencollide", 24 * n), ("sparse", 12 * n), ("nearequal", 24 * n), ("idcollide", 6 * n), ("boolnum", 6 * n), ("boundary", 20 * n)]
 
 
 PAIR_STEMS = [("Model-1", "model 1"), ("A", "a"), ("m.v2", "mv2"), ("x", "x"), ("my  model", "my-model")]
